@@ -308,3 +308,19 @@ Theorem C03_fragment_lists_instance :
   wf_b (FMore (MBullet 45) 1 [FPara 97 [] []] (FItem (MBullet 43) 1 [FPara 98 [] []])) = false.
 Proof. vm_compute. repeat split; reflexivity. Qed.
 Print Assumptions C03_fragment_lists_instance.
+
+(* ... and whole documents of SEVERAL such blocks separated by blank lines (any number, two lists never neighbours): Document(lines)
+   returns exactly the trees written, in order, and the HTML is their HTML joined by newlines *)
+Theorem C03_fragment_seq_document : forall cfg ts,
+  fragment_config (cfg_block cfg) = true -> prose_spans (cfg_span cfg) = true -> emph_spans (cfg_span cfg) = true ->
+  inert_spans (cfg_span cfg) = true -> seq_ok_b ts = true -> forallb wf_b ts = true ->
+  fst (fst (parse_lines cfg (text_of (join_blank (map spell ts))))) = Document (tok_seq false ts).
+Proof. exact fragment_seq_document. Qed.
+Print Assumptions C03_fragment_seq_document.
+
+Theorem C03_fragment_seq_html : forall cfg o ts,
+  fragment_config (cfg_block cfg) = true -> prose_spans (cfg_span cfg) = true -> emph_spans (cfg_span cfg) = true ->
+  inert_spans (cfg_span cfg) = true -> seq_ok_b ts = true -> forallb wf_b ts = true ->
+  render_html o (fst (fst (parse_lines cfg (text_of (join_blank (map spell ts)))))) = join [10%Z] (map (html_f o false) ts) ++ [10%Z].
+Proof. exact fragment_seq_html. Qed.
+Print Assumptions C03_fragment_seq_html.
